@@ -354,8 +354,11 @@ func genShellGrammar(src string) (string, string, error) {
 		fmt.Fprintf(&b, "(nt_%s, [%s]) (* %d, shell.y:%d *)\n", p.lhs, strings.Join(syms, "; "), i+1, p.line)
 	}
 	b.WriteString("  ].\n\n")
+	// constructor D_<lhs>_<k>: the k-th production of that nonterminal in source order
+	// (a new production then renames only the later ones of the same nonterminal)
+	perLhs := map[string]int{}
 	b.WriteString("Inductive derives : nonterm -> list term -> Prop :=\n")
-	for i, p := range g.prods {
+	for _, p := range g.prods {
 		var binders, hyps []string
 		for k, s := range p.rhs {
 			if !isTok[s] {
@@ -381,7 +384,8 @@ func genShellGrammar(src string) (string, string, error) {
 		if yield == "" {
 			yield = "[]"
 		}
-		fmt.Fprintf(&b, "| P%d_%s :", i+1, p.lhs)
+		perLhs[p.lhs]++
+		fmt.Fprintf(&b, "| D_%s_%d :", p.lhs, perLhs[p.lhs])
 		if len(binders) > 0 {
 			fmt.Fprintf(&b, " forall %s,", strings.Join(binders, " "))
 		}
